@@ -57,6 +57,7 @@ def run(repo: Repo, rep: Report, tier: str) -> None:
     _guarded(rep, rule_truth_tested_instances, repo, rep, "R18.5")
     _guarded(rep, rule_lines_untouched, repo, rep, "R18.6")
     _guarded(rep, rule_decoder_state_is_per_stream, repo, rep, "R18.7")
+    _guarded(rep, rule_accumulators_keep_everything, repo, rep, "R18.9")
 
     # ---------------------------------------------------------------- R18.1
     for q, fn in sorted(decoders.items()):
@@ -758,3 +759,77 @@ def rule_decoder_state_is_per_stream(repo: Repo, rep, rule: str = "R18.7") -> No
                       f"{mod.relpath}:{dnode.lineno}")
     if not hz:
         rep.ok(rule, f"{mod.relpath} decoder state", f"{n_fn} functions: no class-level / module-level / default-argument container is changed by the decoders", f"{mod.relpath}:1")
+
+
+_R189_EXAMPLE = '''
+async def iter_sse(response):
+    event_lines = deque(maxlen=1024)
+    async for line in response.aiter_lines():
+        if line == "":
+            yield _parse(event_lines)
+            event_lines.clear()
+        else:
+            event_lines.append(line)
+'''
+
+
+def _r189_lossy(fn_node: ast.AST) -> tuple[int, list[tuple[str, ast.AST, str]]]:
+    """(accumulators seen, [(name, construct, why)]): containers that collect inside a streaming loop and can lose what they were given."""
+    loops = [n for n in ast.walk(fn_node) if isinstance(n, (ast.AsyncFor, ast.For))]
+    acc: set[str] = set()
+    for lp in loops:
+        for c in ast.walk(lp):
+            if isinstance(c, ast.Call) and isinstance(c.func, ast.Attribute) and c.func.attr in ("append", "extend", "appendleft") and isinstance(c.func.value, ast.Name):
+                acc.add(c.func.value.id)
+            if isinstance(c, ast.AugAssign) and isinstance(c.target, ast.Name) and isinstance(c.op, ast.Add):
+                acc.add(c.target.id)
+    out: list[tuple[str, ast.AST, str]] = []
+    for n in ast.walk(fn_node):
+        tgt = val = None
+        if isinstance(n, ast.Assign) and len(n.targets) == 1 and isinstance(n.targets[0], ast.Name):
+            tgt, val = n.targets[0].id, n.value
+        elif isinstance(n, ast.AnnAssign) and isinstance(n.target, ast.Name) and n.value is not None:
+            tgt, val = n.target.id, n.value
+        if tgt in acc and val is not None:
+            for c in ast.walk(val):
+                if isinstance(c, ast.Call) and (getattr(c.func, "id", None) == "deque" or getattr(c.func, "attr", None) == "deque"):
+                    ml = next((k.value for k in c.keywords if k.arg == "maxlen"), c.args[1] if len(c.args) > 1 else None)
+                    if ml is not None and not (isinstance(ml, ast.Constant) and ml.value is None):
+                        out.append((tgt, c, "a deque with `maxlen` silently drops its oldest entries"))
+            if isinstance(val, ast.Subscript) and isinstance(val.slice, ast.Slice) and isinstance(val.value, ast.Name) and val.value.id == tgt:
+                out.append((tgt, n, "re-bound to a slice of itself"))
+        if isinstance(n, ast.Delete):
+            for t in n.targets:
+                if isinstance(t, ast.Subscript) and isinstance(t.value, ast.Name) and t.value.id in acc:
+                    out.append((t.value.id, n, "entries are deleted"))
+        if isinstance(n, ast.Call) and isinstance(n.func, ast.Attribute) and isinstance(n.func.value, ast.Name) and n.func.value.id in acc:
+            if n.func.attr == "popleft" or (n.func.attr == "pop" and n.args):
+                # consuming a parsed prefix (`buf.pop(0)` whose result is used) is how a splitter works; a discarded result loses data
+                if isinstance(parent(n), ast.Expr):
+                    out.append((n.func.value.id, n, "an entry is removed and discarded"))
+    return len(acc), out
+
+
+def rule_accumulators_keep_everything(repo: Repo, rep, rule: str = "R18.9") -> None:
+    """What a decoder has read and not yet yielded is kept whole: the container that collects the lines / text of the open event or record is
+    unbounded and nothing is removed from it but by the reset after a yield.  A `deque(maxlen=n)`, a `buf = buf[-n:]`, a `del buf[:k]` make the
+    yielded item depend on how much arrived before the terminator - the tail of a long event instead of the event."""
+    n, bad = _r189_lossy(ast.parse(_R189_EXAMPLE).body[0])
+    rep.require(n == 1 and len(bad) == 1, f"{rule}: the built-in positive example is no longer recognised - the rule is broken")
+    mod = repo.module(MOD)
+    total = 0
+    found = []
+    for q, fn in sorted(mod.functions.items()):
+        if "<locals>" in q:
+            continue
+        k, bad = _r189_lossy(fn.node)
+        total += k
+        for name, node, why in bad:
+            found.append((q, name, node, why, fn))
+    rep.count(f"{rule}:accumulators", total)
+    rep.require(total >= 2, f"{rule}: only {total} accumulators found in the streaming helpers (floor 2)")
+    for q, name, node, why, fn in found:
+        rep.violation(rule, f"{mod.relpath}:{q} accumulator `{name}`", f"{mod.name}:{q}|accumulator-loses-entries|{name}",
+                      f"`{norm(node)[:70]}`: {why} - an event / record longer than the bound is yielded as its tail (no `event:` / `id:`, truncated data), whatever the chunking", fn.loc(node))
+    if not found:
+        rep.ok(rule, f"{mod.relpath}: accumulators of the decoders are unbounded and lose nothing before the yield", f"{total} accumulators", f"{mod.relpath}:1")
